@@ -76,6 +76,41 @@ inline size_t familyEdges(const std::string &fam, long long a, long long b, std:
         }
         return next;
     }
+    if (fam == "looppath") { // path with a self-loop on every vertex (both directions)
+        size_t n = (size_t)clamp(a, 2, 150);
+        for (unsigned i = 0; i < n; ++i) {
+            out.push_back({i, i});
+            if (i + 1 < n) {
+                out.push_back({i, i + 1});
+                out.push_back({i + 1, i});
+            }
+        }
+        return n;
+    }
+    if (fam == "tristrip") { // strip of triangles: i~i+1, i~i+2 (odd cycles, many same-layer edges)
+        size_t n = (size_t)clamp(a, 3, 150);
+        for (unsigned i = 0; i < n; ++i)
+            for (unsigned d = 1; d <= 2; ++d)
+                if (i + d < n) {
+                    out.push_back({i, i + d});
+                    out.push_back({i + d, i});
+                }
+        return n;
+    }
+    if (fam == "cliquechain") { // b cliques of size a joined in a chain by single edges
+        size_t k = (size_t)clamp(a, 2, 6), m = (size_t)clamp(b, 1, 30);
+        for (size_t c = 0; c < m; ++c) {
+            for (size_t x = 0; x < k; ++x)
+                for (size_t y = 0; y < k; ++y)
+                    if (x != y)
+                        out.push_back({(unsigned)(c * k + x), (unsigned)(c * k + y)});
+            if (c + 1 < m) {
+                out.push_back({(unsigned)(c * k + k - 1), (unsigned)((c + 1) * k)});
+                out.push_back({(unsigned)((c + 1) * k), (unsigned)(c * k + k - 1)});
+            }
+        }
+        return k * m;
+    }
     return 0;
 }
 
